@@ -129,7 +129,11 @@ func whichAppend(rt reflect.Type, omitEmpty bool) (f appendFunc) {
 	return
 }
 
-func newFinfo(f *reflect.StructField, key string, omitEmpty, asString, pretty, embedded bool) *finfo {
+func newFinfo(f *reflect.StructField, key string, omitEmpty, omitTag, asString, pretty, embedded bool) *finfo {
+	// The plan of a nested struct follows the OmitEmpty option only, an
+	// omitempty tag applies to just this field.
+	elemOmit := omitEmpty
+	omitEmpty = omitEmpty || omitTag
 	fi := finfo{
 		rt:     f.Type,
 		key:    key,
@@ -208,7 +212,7 @@ func newFinfo(f *reflect.StructField, key string, omitEmpty, asString, pretty, e
 			fi.iAppend = appendSENString
 		}
 	case reflect.Struct:
-		fi.elem = getTypeStruct(fi.rt, true, omitEmpty)
+		fi.elem = getTypeStruct(fi.rt, true, elemOmit)
 		fi.Append = appendJustKey
 		fi.iAppend = appendJustKey
 	case reflect.Ptr:
@@ -217,7 +221,7 @@ func newFinfo(f *reflect.StructField, key string, omitEmpty, asString, pretty, e
 			et = et.Elem()
 		}
 		if et.Kind() == reflect.Struct {
-			fi.elem = getTypeStruct(et, false, omitEmpty)
+			fi.elem = getTypeStruct(et, false, elemOmit)
 		}
 		if omitEmpty {
 			fi.Append = appendPtrNotEmpty
@@ -242,7 +246,7 @@ func newFinfo(f *reflect.StructField, key string, omitEmpty, asString, pretty, e
 			et = et.Elem()
 		}
 		if et.Kind() == reflect.Struct {
-			fi.elem = getTypeStruct(et, embedded, omitEmpty)
+			fi.elem = getTypeStruct(et, embedded, elemOmit)
 		}
 		if omitEmpty {
 			fi.Append = appendSliceNotEmpty
